@@ -8,6 +8,11 @@
 (*   MC_c09_ideal / _t        discrete clock, deadlines 1 and 3, dial bound 2, SerialDial = FALSE : DeadlineInv        *)
 (*   MC_c09_kf_serialdial     the same with SerialDial = TRUE (finding F21): DeadlineInv must be violated               *)
 (*   MC_transport_polite / MC_transport_kf   connection.invokeNum returns to 0 iff every request is answered once      *)
+(*   MC_c09_read0 / _t        ClientReadTimeout = 0 as the code is (RecvOffers = FALSE): no call ends with a reply, every   *)
+(*                            call ends by its deadline, nothing is left behind                                            *)
+(*   MC_c09_dup / _t          2 / 3 callers, 3 packets (duplicates), ReadTO 2: ReplyInTime (a stray packet delays nobody)   *)
+(*   MC_c09_kf_inline         the same with InlineRecv = TRUE (the reader runs the receiver itself): ReplyInTime must be    *)
+(*                            violated (non-vacuity)                                                                        *)
 EXTENDS ClientMux
 C2 == {1, 2}
 C3 == {1, 2, 3}
